@@ -6,11 +6,13 @@ import json, os, shutil, subprocess, sys
 sys.path.insert(0, "/verif")
 import tools_seed
 
-def main(prop, root="/tmp/seed", offset=0, tier="quick"):
+def main(prop, root="/tmp/seed", offset=0, tier="quick", only=None):
     offset = int(offset)
     wt = f"{root}/{prop}"
     out = os.path.join(wt, "out")
     for k in (1, 2, 3):
+        if only and int(only) != k:
+            continue
         patch = os.path.join(out, f"m{k}.diff")
         demo = os.path.join(out, f"m{k}_demo.py")
         if not (os.path.exists(patch) and os.path.exists(demo)):
@@ -41,4 +43,4 @@ def main(prop, root="/tmp/seed", offset=0, tier="quick"):
         print(sid, "detection:", {p: (v["exit"], v["n_fingerprints"], v["fingerprints"][:3]) for p, v in r.items()})
 
 if __name__ == "__main__":
-    main(*sys.argv[1:4])
+    main(*sys.argv[1:6])
